@@ -23,7 +23,8 @@ EXPLANATION = (
     'chosen by z3 integers explored with vt/shapex.py (fork on c_k == i, z3 feasibility, DFS); after EVERY accepted API '
     'call the reported types are compared with (1) the cached IR type, (2) a deep recomputation by the real '
     '_compute_type(deep_typecheck=True) of every IR node, (3) a type inferred from the IR TEXT by an independent '
-    'engine-side rule table (operator result types read from BinaryOp.scala / UnaryOp.scala at run time). Part B is a '
+    'engine-side rule table (operator result types read from BinaryOp.scala / UnaryOp.scala, join-node result types '
+    'from TableIR.scala / MatrixIR.scala at run time), including table / matrix-table lookups (joins). Part B is a '
     'bounded exhaustive exploration of call sequences (<= 4 calls); no value-level solver claim is made there.'
 )
 BE = 'hail/python/hail/expr/expressions/base_expression.py'
@@ -43,10 +44,12 @@ CASES = {
 # (kind, calls, profile, shard depth)
 PLAN = {
     'quick': [('expr', 1, 'wide', 1), ('expr', 2, 'core', 2), ('table', 2, 'wide', 2), ('matrix', 2, 'wide', 2),
-              ('table', 4, 'mini', 3), ('matrix', 4, 'mini', 2), ('expr', 3, 'mini', 2)],
+              ('table', 4, 'mini', 3), ('matrix', 4, 'mini', 2), ('expr', 3, 'mini', 2),
+              ('table', 1, 'join', 2), ('matrix', 1, 'join', 2), ('table', 2, 'joincore', 3)],
     'thorough': [('expr', 2, 'wide', 2), ('expr', 3, 'core', 3), ('expr', 4, 'mini', 3), ('table', 2, 'wide', 2),
                  ('table', 3, 'core', 3), ('table', 4, 'mini', 3), ('matrix', 2, 'wide', 2), ('matrix', 3, 'core', 3),
-                 ('matrix', 4, 'mini', 2)],
+                 ('matrix', 4, 'mini', 2), ('table', 1, 'join', 2), ('matrix', 1, 'join', 2), ('table', 2, 'joincore', 3),
+                 ('matrix', 2, 'joincore', 4)],
 }
 WORKERS = 8
 
@@ -262,10 +265,14 @@ def _encode_sources(R):
         'hail/python/hail/ir/ir.py': {'ApplyBinaryPrimOp', 'ApplyComparisonOp', 'ApplyUnaryPrimOp', 'If', 'MakeArray', 'MakeStruct',
                                       'MakeTuple', 'InsertFields', 'SelectFields', 'GetField', 'GetTupleElement', 'StreamMap',
                                       'StreamFilter', 'StreamFold', 'ToArray', 'ToStream', 'ArrayRef', 'ArrayLen', 'Apply',
-                                      'Literal', 'EncodedLiteral', 'Coalesce', 'Let', 'Cast'},
-        'hail/python/hail/ir/table_ir.py': {'TableRange', 'TableMapRows', 'TableMapGlobals', 'TableKeyBy', 'TableFilter'},
+                                      'Literal', 'EncodedLiteral', 'Coalesce', 'Let', 'Cast', 'Join', 'TableGetGlobals',
+                                      'TopLevelReference', 'ProjectedTopLevelReference', 'SelectedTopLevelReference'},
+        'hail/python/hail/ir/table_ir.py': {'TableRange', 'TableMapRows', 'TableMapGlobals', 'TableKeyBy', 'TableFilter',
+                                            'TableLeftJoinRightDistinct', 'TableIntervalJoin', 'TableJoin', 'TableAggregateByKey',
+                                            'TableKeyByAndAggregate', 'MatrixRowsTable', 'MatrixColsTable', 'MatrixEntriesTable'},
         'hail/python/hail/ir/matrix_ir.py': {'MatrixMapRows', 'MatrixMapCols', 'MatrixMapEntries', 'MatrixMapGlobals',
-                                             'MatrixKeyRowsBy', 'MatrixFilterRows', 'MatrixFilterCols', 'MatrixFilterEntries'},
+                                             'MatrixKeyRowsBy', 'MatrixFilterRows', 'MatrixFilterCols', 'MatrixFilterEntries',
+                                             'MatrixAnnotateRowsTable', 'MatrixAnnotateColsTable'},
         'hail/python/hail/table.py': {'Table'},
         'hail/python/hail/matrixtable.py': {'MatrixTable'},
     }
@@ -278,6 +285,9 @@ def _encode_sources(R):
     T = C36_types._scala_tables()
     R.encode(f'{C36_types.BINOP_SRC} BinaryOp.returnType/fromString', T['src'][0])
     R.encode(f'{C36_types.UNOP_SRC} UnaryOp.returnType/fromString', T['src'][1])
+    J = C36_types._join_rules()
+    R.encode(f'{C36_types.TABLE_SRC} TableLeftJoinRightDistinct.typ / TableIntervalJoin.typ', J['src'][0])
+    R.encode(f'{C36_types.MATRIX_SRC} MatrixAnnotateRowsTable.typ / MatrixAnnotateColsTable.typ', J['src'][1])
 
 
 def _task(args):
@@ -312,8 +322,24 @@ def run(R):
              'AssertionError raised inside assign_type/compute_type/_compute_type is a violation, any other assert a rejection',
              'Part B needs no backend: Env._hc is a stub with a logger; parsimonious is replaced by harness/C31_peg.py (real '
              'grammar text, real visitor) and the aggregator registry is refilled through the real register_aggregators()',
-             'Part B text-level inference covers the node kinds listed in harness/C36_types.py; other nodes (ArraySort, '
-             'TableOrderBy, Matrix* ...) are counted as not inferred and decided by checks (1) and (2) only',
+             'Part B text-level inference covers the node kinds listed in harness/C36_types.py (value IR incl. Collect/Count/'
+             'Sum aggregations and scans, TableRange/MapRows/MapGlobals/KeyBy/Filter/Head/Distinct/Union/AggregateByKey/'
+             'KeyByAndAggregate/Join, TableLeftJoinRightDistinct, TableIntervalJoin, TableGetGlobals, Matrix{Rows,Cols,'
+             'Entries}Table, MatrixRead(range), MatrixMap{Rows,Cols,Entries,Globals}, MatrixFilter*, MatrixKeyRowsBy, '
+             'MatrixAnnotateRowsTable, MatrixAnnotateColsTable); the product/first-match result type and insert mode of the '
+             'four join nodes are read from their `typ` definitions in TableIR.scala / MatrixIR.scala at run time and their '
+             'key requirements follow TypeCheck.scala; other nodes (ArraySort, TableOrderBy, TableRename, TableExplode ...) '
+             'are counted as not inferred and decided by checks (1) and (2) only',
+             'Part B lookups: Table.index(*exprs, all_matches=False|True), table[...], Table.index_globals(), '
+             'MatrixTable.index_rows/index_cols/index_entries and mt.rows()[...] on tables keyed by one point key, two keys, '
+             'an interval key, (interval, point) keys and a str key, indexed by the key field itself, a computed point, two '
+             'expressions, a struct, a tuple, an interval, an int64 and a str, whole result / first field / len, used in '
+             'annotate, select, filter, annotate_globals and annotate_rows, annotate_cols, annotate_entries, filter_rows; the '
+             'lookup expression is checked once it is resolved by the annotating call (alone it has free uid fields)',
+             'Deep recomputation (2): the cached type of the shared reference nodes `Ref row|global|va|sa|g` '
+             '(TopLevelReference) is exempt — the same object legitimately sits under a join node whose row has extra uid '
+             'fields, and the text `(Ref row)` carries no type; for those nodes IR.compute_type\'s cache comparison is '
+             'switched off during the deep pass and their caches are restored afterwards; every other node is compared',
              'floats, strings, sets, dicts-with-nonstr-keys, loci, calls, ndarrays as literal leaves are out of Part A')
     R.extra['trusted_base'] = ['z3', 'vt/pyk.py + harness/C36_lit.Interp', 'harness/C36_lit.want oracle',
                                'harness/C36_types.py engine-side typing rules', 'vt/shapex.py', 'harness/C31_peg.py']
@@ -334,7 +360,8 @@ def run(R):
     with cf.ProcessPoolExecutor(max_workers=WORKERS, mp_context=ctx) as ex:
         results = list(ex.map(_task, tasks, chunksize=1))
     tot = {'paths': 0, 'done': 0, 'rejected': 0, 'api_calls_checked': 0}
-    text = {'expr_inferred': 0, 'expr_not_inferred': 0, 'table_inferred': 0, 'table_not_inferred': 0}
+    text = {'expr_inferred': 0, 'expr_not_inferred': 0, 'table_inferred': 0, 'table_not_inferred': 0, 'matrix_inferred': 0,
+            'matrix_not_inferred': 0, 'join_nodes_inferred': 0}
     not_inf = {}
     per_class = {}
     groups = {}
@@ -373,7 +400,8 @@ def run(R):
     R.extra['text_level_inference'] = text
     R.extra['text_level_not_inferred_nodes'] = dict(sorted(not_inf.items(), key=lambda kv: -kv[1])[:20])
     R.log(f"[C36] part B: programs={tot['paths']} accepted_calls_checked={tot['api_calls_checked']} text={text}")
-    if tot['api_calls_checked'] == 0 or text['expr_inferred'] == 0 or text['table_inferred'] == 0:
+    if tot['api_calls_checked'] == 0 or text['expr_inferred'] == 0 or text['table_inferred'] == 0 or \
+            text['matrix_inferred'] == 0 or text['join_nodes_inferred'] == 0:
         raise HarnessError('no API call was checked / the text-level inference never applied: vacuous')
 
 
